@@ -767,6 +767,10 @@ func taskBodyMatches(b *task.Task, row *tables.Task) bool {
 
 func (r *ruleState) specTask(req *ReqRec, cands []cand, taus []int64) {
 	props := P("C02", "C07")
+	if req.Req.Kind == t_api.ClaimTask {
+		// "a claim succeeds with the id and counter a dispatched message names" is C08's as well
+		props = P("C02", "C07", "C08")
+	}
 	switch req.Req.Kind {
 	case t_api.ClaimTask:
 		q := req.Req.ClaimTask
